@@ -256,6 +256,16 @@ func c01Atoms(thorough bool) []qAtom {
 		add("dotted-2hop-set", true, rm.Cmp{L: fn("reports.places.name"), Op: "=", R: S("y")})
 		add("dotted-2hop-set", true, rm.Cmp{L: fn("places.people.reports"), Op: "=", R: S("e1")})
 	}
+	// symbols registered under a name that differs from the stored key
+	for _, op := range []string{"=", "!=", "<", "contains"} {
+		add("symbol-with-key", true, rm.Cmp{L: lhs("sk"), Op: op, R: S("a")})
+	}
+	add("symbol-with-key", true, rm.Cmp{L: lhs("sk"), Op: "=", R: rm.Null})
+	add("symbol-with-key", true, rm.Cmp{L: lhs("chief"), Op: "=", R: S("e1")})
+	add("symbol-with-key", true, rm.Cmp{L: lhs("chief"), Op: "!=", R: rm.Null})
+	add("symbol-with-key", true, rm.Cmp{L: lhs("chief.s"), Op: "=", R: S("a")})
+	add("symbol-with-key", true, rm.Cmp{L: lhs("chief.sk"), Op: "!=", R: S("a")})
+	add("symbol-with-key", true, rm.Cmp{L: anyOf("reports.chief.sk"), Op: "=", R: S("a")})
 	// a single-valued hop in front of a set (the middle level has several members)
 	for _, fn := range []func(string) rm.Lhs{anyOf, allOf} {
 		for _, other := range []string{"e1", "e3"} {
